@@ -369,3 +369,18 @@ func packageName(dir string) (string, error) {
 	}
 	return "", fmt.Errorf("no package clause found in %s", dir)
 }
+
+// NativePass runs the harness natively on a replay vector taken from a passing symbolic path and
+// reports whether it passes there too.
+func NativePass(verifDir, repoDir string, rp *ReplayFile, replayPath string) ReplayVerdict {
+	rp.Violation.Kind = "none"
+	v := NativeReplay(verifDir, repoDir, rp, replayPath)
+	// NativeReplay reports "Reproduced" for violations; for a passing sample look at the raw output
+	if strings.Contains(v.Detail, "VERIF-ASSERT-FAILED") || strings.Contains(v.Detail, "VERIF-PANIC") || strings.Contains(v.Detail, "FAIL") {
+		return ReplayVerdict{false, v.Detail}
+	}
+	if strings.Contains(v.Detail, "ok  \t") || strings.Contains(v.Detail, "PASS") || strings.Contains(v.Detail, "ok ") {
+		return ReplayVerdict{true, "native run passed"}
+	}
+	return ReplayVerdict{false, v.Detail}
+}
